@@ -488,7 +488,7 @@ Definition point_shaped (d : pkd) : Prop :=
   | PEcdsaPub _ _ _ pt | PEcdsaPriv _ _ _ pt _ | PJwtEcdsa _ _ pt => pt <> []
   | PEd25519Priv seed => blen seed = ed25519_seed_size
   | PEcies _ curve _ pt => forall c, coord_size curve = Some c -> length pt = (1 + 2 * c)%nat
-  | PComposite _ _ _ (Some seed) => blen seed = ed25519_seed_size
+  | PComposite _ _ (Some seed) => blen seed = ed25519_seed_size
   | _ => True
   end.
 
@@ -660,7 +660,7 @@ Qed.
 
 (* the composite parsers hand out composite key objects of the right half *)
 Lemma composite_of_classical_kind private alg d d' :
-  composite_of_classical private alg d = Ok d' -> exists cp pt seed, d' = PComposite private cp pt seed.
+  composite_of_classical private alg d = Ok d' -> exists pt seed, d' = PComposite private pt seed.
 Proof.
   unfold composite_of_classical.
   destruct d; try discriminate; try (destruct pss); intros H; apply okb_ok in H; destruct H as [_ ->]; eauto.
@@ -668,7 +668,7 @@ Qed.
 
 Lemma parse_composite_kind private kd prefix idreq d :
   parse_composite L private kd prefix idreq = Ok d ->
-  kd_mat kd = (if private then km_private else km_public) /\ exists cp pt seed, d = PComposite private cp pt seed.
+  kd_mat kd = (if private then km_private else km_public) /\ exists pt seed, d = PComposite private pt seed.
 Proof.
   unfold parse_composite. cbv zeta.
   destruct (negb (kd_mat kd =? _)) eqn:M; [discriminate|]. destruct (negb (wire_ok _ _)); [discriminate|].
@@ -707,9 +707,6 @@ Proof.
       destruct (slice_ok 0 c xy) as [r1 [-> _]]; try lia. cbn [bind].
       destruct (slice_ok c (length xy) xy) as [r2 [-> _]]; try lia. cbn [bind]. discriminate.
   - (* composite ML-DSA: the classical half *)
-    assert (Q : bind (match point with [] => Ok true | _ => ecdsa_point_slices point end)
-                  (fun _ => match seed with Some sd => bind (ed25519_from_seed L sd) (fun _ => Ok true) | None => Ok true end) <> Panic);
-      [|destruct private, classical_private; try exact Q; discriminate].
     apply bind_np.
     + destruct point as [|p0 pt]; [discriminate|]. unfold ecdsa_point_slices. apply P. discriminate.
     + intros _ _. destruct seed as [sd|]; [|discriminate]. rewrite (ed25519_from_seed_ok _ H). discriminate.
